@@ -144,13 +144,20 @@ def _set_with_op(container: Any, key: Any, op: str, value: Any) -> Any:
     elif op == '-=':
         container[key] -= value
     elif op == '*=':
-        container[key] *= value
+        container[key] = _multiply(container[key], value)
     elif op == '/=':
         container[key] /= value
     else:
         raise ParserError(f'Unsupported short op: {op}')
 
     return value
+
+
+def _multiply(op1: Any, op2: Any) -> Any:
+    if not isinstance(op1, (Decimal_, int, float)) or not isinstance(op2, (Decimal_, int, float)):
+        raise ParserError(f'Can\'t multiply non-numbers')
+
+    return Decimal(op1) * Decimal(op2)
 
 
 def _map(container: Any, f: Callable) -> Any:
